@@ -597,9 +597,41 @@ package sam
 //@   before return#8: assert [c18.error.first] len(recvd(cErr)) == 1 && err == recvd(cErr)[0]
 //@   before return#9: assert [c18.nil.means.clean] len(recvd(cErr)) == 0 && len(recvd(cReadDone)) == 1 && len(recvd(cAlignWaitGroupDone)) == 1 && len(recvd(cTrimWaitGroupDone)) == 1 && len(recvd(cWriteDone)) == 1
 //@   ensures [c18.error.returned] implies(gErrSeen, result != nil)
-//@ func Variants prefix
+//@ func Variants spawns
 //@   modifies everything
 //@   after if#3: assert [c18.oneref] len(refs) == 1
+//@   # the rest of the orchestration in spawns mode (model and assumptions: see closest.Closest)
+//@   after assign:cWriteDone#1: assume [env.errors] forallint(k, envat(cErr, k) != nil)
+//@   ghost gErrSeen bool = false
+//@   before call:groupSamRecords#1: assert [c11.reader] arg(0) == samIn && arg(1) == cSH && arg(2) == cSR && arg(3) == cReadDone && arg(4) == cErr
+//@   before call:blockToPairwiseAlignment#1: assert [c11.aligner] arg(0) == cSR && arg(1) == cPairAlign && arg(2) == cErr && arg(4) == false
+//@   before call:getVariantsSam#1: assert [c11.annotator] sameslice(arg(0), cdsregions) && sameslice(arg(1), intregions) && arg(2) == cPairAlign && arg(3) == cVariants && arg(4) == cErr
+//@   before call:AggregateWriteVariants#1: assert [c13.writer] aggregate && arg(0) == out && arg(6) == cVariants && arg(7) == cWriteDone && arg(8) == cErr
+//@   before call:WriteVariants#1: assert [c11.writer] !aggregate && arg(0) == out && arg(6) == cVariants && arg(7) == cWriteDone && arg(8) == cErr
+//@   before return#9: do gErrSeen = true
+//@   before return#9: assert [c18.error.first] len(recvd(cErr)) == 1 && err == recvd(cErr)[0]
+//@   loop 3:
+//@     invariant !gErrSeen && len(recvd(cErr)) == 0 && len(recvd(cReadDone)) == 0 && len(recvd(cAlignWaitGroupDone)) == 0 && len(recvd(cVariantsDone)) == 0 && len(recvd(cWriteDone)) == 0
+//@   loop 4:
+//@     invariant !gErrSeen && len(recvd(cErr)) == 0 && len(recvd(cReadDone)) == 0 && len(recvd(cAlignWaitGroupDone)) == 0 && len(recvd(cVariantsDone)) == 0 && len(recvd(cWriteDone)) == 0
+//@   loop 5:
+//@     invariant !gErrSeen && len(recvd(cErr)) == 0 && 0 <= n && n <= 1 && len(recvd(cReadDone)) + n == 1 && len(recvd(cAlignWaitGroupDone)) == 0 && len(recvd(cVariantsDone)) == 0 && len(recvd(cWriteDone)) == 0
+//@   loop 6:
+//@     invariant !gErrSeen && len(recvd(cErr)) == 0 && len(recvd(cReadDone)) == 1 && 0 <= n && n <= 1 && len(recvd(cAlignWaitGroupDone)) + n == 1 && len(recvd(cVariantsDone)) == 0 && len(recvd(cWriteDone)) == 0
+//@   loop 7:
+//@     invariant !gErrSeen && len(recvd(cErr)) == 0 && len(recvd(cReadDone)) == 1 && len(recvd(cAlignWaitGroupDone)) == 1 && 0 <= n && n <= 1 && len(recvd(cVariantsDone)) + n == 1 && len(recvd(cWriteDone)) == 0
+//@   loop 8:
+//@     invariant !gErrSeen && len(recvd(cErr)) == 0 && len(recvd(cReadDone)) == 1 && len(recvd(cAlignWaitGroupDone)) == 1 && len(recvd(cVariantsDone)) == 1 && 0 <= n && n <= 1 && len(recvd(cWriteDone)) + n == 1
+//@   before return#10: do gErrSeen = true
+//@   before return#11: do gErrSeen = true
+//@   before return#12: do gErrSeen = true
+//@   before return#13: do gErrSeen = true
+//@   before return#10: assert [c18.error.first] len(recvd(cErr)) == 1 && err == recvd(cErr)[0]
+//@   before return#11: assert [c18.error.first] len(recvd(cErr)) == 1 && err == recvd(cErr)[0]
+//@   before return#12: assert [c18.error.first] len(recvd(cErr)) == 1 && err == recvd(cErr)[0]
+//@   before return#13: assert [c18.error.first] len(recvd(cErr)) == 1 && err == recvd(cErr)[0]
+//@   before return#14: assert [c18.nil.means.clean] len(recvd(cErr)) == 0 && len(recvd(cReadDone)) == 1 && len(recvd(cAlignWaitGroupDone)) == 1 && len(recvd(cVariantsDone)) == 1 && len(recvd(cWriteDone)) == 1
+//@   ensures [c18.error.returned] implies(gErrSeen, result != nil)
 //@   # C11: the writer is started with the window, threshold and --append-snps exactly as given on the command line (the same
 //@   # values `variants` hands to the same writers), and with the reference's ID
 //@   # C11: with --reference the reference used for the pairs, the regions and the writer is the record read from that file
